@@ -4,6 +4,31 @@ package event
 
 // Machine-checked contracts (read by /verif/engine; comment-only, compiled only with -tags verif).
 //
+// ---- events that carry an error text (C07): the client logs String(); error texts of the rendezvous and of pion
+// contain peer and broker addresses. The text reaches the formatted output only after it has been through the
+// scrubber: what Sprintf is handed is the slice Scrub returned, and Error() is consulted exactly once, for Scrub.
+//@ ghost var scrubbedOut ref
+//@ func (e EventOnOfferCreated) String() (s string)
+//@   props C07
+//@   flag nosafety
+//@   after call Scrub ghost scrubbedOut = base(ret0)
+//@   at call Sprintf assert {only-the-scrubbed-text-is-formatted} calls(Scrub) == 1 && calls(Error) == 1 && len(arg1) == 1 && tagis(arg1[0], bytes) && base(scrubbed) == scrubbedOut
+//@   ensures {error-text-never-bypasses-the-scrubber} calls(Error) == calls(Scrub) && calls(Scrub) == calls(Sprintf)
+//
+//@ func (e EventOnBrokerRendezvous) String() (s string)
+//@   props C07
+//@   flag nosafety
+//@   after call Scrub ghost scrubbedOut = base(ret0)
+//@   at call Sprintf assert {only-the-scrubbed-text-is-formatted} calls(Scrub) == 1 && calls(Error) == 1 && len(arg1) == 1 && tagis(arg1[0], bytes) && base(scrubbed) == scrubbedOut
+//@   ensures {error-text-never-bypasses-the-scrubber} calls(Error) == calls(Scrub) && calls(Scrub) == calls(Sprintf)
+//
+//@ func (e EventOnSnowflakeConnectionFailed) String() (s string)
+//@   props C07
+//@   flag nosafety
+//@   after call Scrub ghost scrubbedOut = base(ret0)
+//@   at call Sprintf assert {only-the-scrubbed-text-is-formatted} calls(Scrub) == 1 && calls(Error) == 1 && len(arg1) == 1 && tagis(arg1[0], bytes) && base(scrubbed) == scrubbedOut
+//@   ensures {error-text-never-bypasses-the-scrubber} calls(Error) == 1 && calls(Scrub) == 1 && calls(Sprintf) == 1
+//
 // ---- guarded-by declarations (C20) ----
 // (the mutex is held by pointer: the lock that counts is the one eventBus.lock points to at the access)
 //@ guarded eventBus.listeners by lock
